@@ -143,7 +143,7 @@ def invariant(fm, source_ctcs, by_name=False):
         except Exception as exc:  # noqa: BLE001
             out.append(Fail('constraint-not-traversable:%s' % type(exc).__name__, sh.tree_str(obs)))
             continue
-        if src_tree is not None and all(o in sh.LOGICAL for o in ops):
+        if src_tree is not None and not any(o in sh.AGGREGATE for o in ops):
             try:
                 got = sorted(ctc.get_features())
             except Exception as exc:  # noqa: BLE001
@@ -229,7 +229,11 @@ def check(case):
     except Exception:  # noqa: BLE001
         return []
     engine.validated()
-    return invariant(fm, model[1], by_name=(k == 'GLEN'))
+    src = model[1]
+    if k == 'AFM':
+        from ..lang import afm as _afm
+        src = tuple(('e%d' % i, t) for i, t in enumerate(_afm.expected_constraints(model, c09._unkey(_afm, key))))
+    return invariant(fm, src, by_name=(k == 'GLEN'))
 
 
 def outcome(case):
